@@ -34,8 +34,11 @@ def lit(name, lits, other):
     return ("lit", name, tuple(lits), other)
 
 
-L_INT = lit("Int64", ["1", "2", "3"], "7")
-L_I32 = lit("Int32", ["0i32", "1i32", "2147483647i32"], "5i32")
+# values that are not among the literals: a neighbour on each side, and values that agree with a literal in their low
+# 32 bits / differ by the sign bit (dense literal arms are dispatched through range checks and jump tables)
+L_INT = lit("Int64", ["1", "2", "3"], ("7", "0", "4", "(-1)", "4294967297", "(-4294967295)", "4294967298", "(-4294967294)",
+                                         "9223372036854775807", "(-9223372036854775807 - 1)"))
+L_I32 = lit("Int32", ["0i32", "1i32", "2147483647i32"], ("5i32", "(-1i32)", "2i32", "2147483646i32", "(-2147483647i32 - 1i32)"))
 L_CHAR = lit("Char", ["'a'", "'b'", "'\\n'"], "'z'")
 L_STR = lit("String", ['"a"', '"b"', '""'], '"zz"')
 
@@ -81,7 +84,7 @@ def values(t):
     if k == "bool":
         out = [True, False]
     elif k == "lit":
-        out = list(t[2]) + [t[3]]
+        out = list(t[2]) + (list(t[3]) if isinstance(t[3], tuple) else [t[3]])
     else:
         out = []
         for vi, (_, fs) in enumerate(variants(t)):
@@ -534,6 +537,10 @@ def spaces(quick):
     for lt in (L_INT, L_I32, L_CHAR, L_STR):
         add(lt[1], lt, pats(lt, 1, alts=True) + [("b",)], 3 if quick else 4, "one" if quick else "all")
     add("(Int64,Bool)", tup(L_INT, BOOL), pats(tup(L_INT, BOOL), 2), 2 if quick else 3, "one")
+    # dense literal arms: every 4-row matrix over {1, 2, 3, _} / the Int32 literals (jump tables and range checks need
+    # three literal arms plus a default, which the row bound of the general literal spaces only reaches in the thorough tier)
+    add("Int64-dense", L_INT, [("l", "1"), ("l", "2"), ("l", "3"), ("w",)], 4, "none")
+    add("Int32-dense", L_I32, [("l", "0i32"), ("l", "1i32"), ("l", "2147483647i32"), ("w",)], 4, "none")
     return sp
 
 
